@@ -1,6 +1,7 @@
 (* C08 — one-shot server bootstrap connects two processes and leaves nothing behind (model: Server.v). *)
 From Coq Require Import List Arith Bool ZArith.
 From IPC Require Import U64 Params Server ServerProofs.
+From IPC Require K Prog Ideal Api ApiProofs ApiInv InprocSrv InprocSrvProofs.
 Import ListNotations.
 Local Open Scope nat_scope.
 
@@ -55,3 +56,67 @@ Example C08_ex :
     (run init [SNew; CConnect 0; CSend 0 1; CSend 0 2; CSend 0 3; CExit 0; SAccept 0; RRecv 0; RRecv 0])
   = Some ([1; 2; 3], [], 0).
 Proof. vm_compute. reflexivity. Qed.
+
+(* ---- one-shot servers inside whole-API programs (model: Api.v; proofs: ApiInv.v) ---- *)
+Module ApiLevel.
+Import K Prog Ideal Api ApiProofs ApiInv.
+Local Open Scope nat_scope.
+
+(* accept hands out the head of the rendezvous queue, with its attachments in order, and the receiver it returns is the
+   receiving end of that very channel (so everything the client sends later arrives through it) *)
+Theorem C08_api_accept_first : forall s sh c m rest k', a_inv s ->
+  lookup (ah s) sh = Some (OSrv c true) -> k_recv (ak s) c = KMsg m k' -> undecodable m = false ->
+  q (get_chan (ak s) c) = m :: rest ->
+  exists hs, snd (a_step s (AAccept sh)) = QAccepted (anext s) (m_data m) hs /\ map fst hs = map akind_of (m_rights m) /\
+             lookup (ah (fst (a_step s (AAccept sh)))) (anext s) = Some (OR c).
+Proof. exact accept_returns_first. Qed.
+Print Assumptions C08_api_accept_first.
+End ApiLevel.
+
+(* ---- the one-shot server of the in-process transport (model: InprocSrv.v - registry of server records, accept() statement by
+   statement; proofs: InprocSrvProofs.v), for EVERY interleaving of accept's statements with the clients' actions ---- *)
+Module InprocLevel.
+Import InprocSrv InprocSrvProofs.
+Local Open Scope nat_scope.
+
+Theorem C08_inproc_fifo : forall ls s, run init ls = Some s -> got s ++ queue s = sent s.
+Proof. exact isrv_fifo. Qed.
+Print Assumptions C08_inproc_fifo.
+
+Theorem C08_inproc_accept_first : forall ls s, run init ls = Some s -> phase s = PDoneOk ->
+  exists x rest, got s = x :: rest /\ sent s = x :: rest ++ queue s.
+Proof. exact isrv_accept_first. Qed.
+Print Assumptions C08_inproc_accept_first.
+
+(* nothing created for the rendezvous remains: once the registry entry is gone (before accept's final receive) neither the
+   registry nor accept's own clone of the record holds a sender - only the clients do *)
+Theorem C08_inproc_no_parked_sender : forall ls s, run init ls = Some s -> after_removed (phase s) = true -> senders s = clients s.
+Proof. exact isrv_no_parked_sender. Qed.
+Print Assumptions C08_inproc_no_parked_sender.
+
+Theorem C08_inproc_disconnected_exact : forall ls s s', run init ls = Some s -> step s IRecv = Some s' ->
+  (exists o, obs s' = obs s ++ [o] /\
+     (o = ODisc <-> queue s = [] /\ clients s = 0) /\ (forall x, o = OMsg x <-> exists q, queue s = x :: q)).
+Proof. exact isrv_disconnected_exact. Qed.
+Print Assumptions C08_inproc_disconnected_exact.
+
+(* accept never waits for ever once a client has connected: the connection token is there, and the final receive returns as
+   soon as a message is queued or every client handle is gone (with 'closed': the defect repaired by a2ffe27 was that accept's
+   clone of the record - a sender - was still alive at that point) *)
+Theorem C08_inproc_accept_progress : forall ls s, run init ls = Some s ->
+  (phase s = PCloned -> 0 < nconn s -> exists s', step s IAcc2 = Some s') /\
+  (phase s = PToken -> exists s', step s IAcc3 = Some s') /\
+  (phase s = PDropped -> exists s', step s IAcc4 = Some s') /\
+  (phase s = PRemoved -> (queue s <> [] \/ clients s = 0) -> exists s', step s IAcc5 = Some s').
+Proof. exact isrv_accept_progress. Qed.
+Print Assumptions C08_inproc_accept_progress.
+
+Example C08_inproc_ex :
+  option_map (fun s => (phase s, got s, obs s, reg s, senders s))
+    (run init [INew; IAcc1; IConnect; IAcc2; IAcc3; IAcc4; ISend 7; IAcc5; ISend 8; IDropTx; IRecv; IRecv])
+  = Some (PDoneOk, [7; 8], [OMsg 8; ODisc], false, 0) /\
+  option_map phase (run init [INew; IConnect; IDropTx; IAcc1; IAcc2; IAcc3; IAcc4; IAcc5]) = Some PDoneErr /\
+  (* without the release of the clone (IAcc3 skipped) accept cannot get any further: *)
+  run init [INew; IConnect; IDropTx; IAcc1; IAcc2; IAcc4] = None.
+Proof. vm_compute. repeat split. Qed.
+End InprocLevel.
